@@ -10,7 +10,7 @@ from sa.flow import Interp
 from sa.summary import is_abstract_body
 
 CLAIM = {
-    "text": "Decides, for every close path of the package (all aclose/close/server_close methods of transport-like classes, clients and servers, the stapled-transport helpers, aclose_forcefully, TLS wrap(), the per-connection server tasks and the constructors that take over a socket), that on every exit edge - normal return, any exception out of any call, cancellation out of any await that can really suspend un-shielded - the close of each owned transport/socket has been invoked (gracefully or forcefully), directly, through a callee that is itself proven to close its argument, or through an ExitStack registration; that the closing flag is stored before the underlying close; that the event a second closer waits on is set on every exit of the first close and shared close-waiter futures are only awaited through asyncio.shield. Necessary structural condition of the property, decided for all cancellation points at once. close()/aclose() never takes a guard or lock that a receive method of the same class holds while waiting; AsyncTCPNetworkClient.aclose() cancels the pending connector before its first suspension point, and the connector stays registered while the race is awaited.",
+    "text": "Decides, for every close path of the package (all aclose/close/server_close methods of transport-like classes, clients and servers, the stapled-transport helpers, aclose_forcefully, TLS wrap(), the per-connection server tasks and the constructors that take over a socket), that on every exit edge - normal return, any exception out of any call, cancellation out of any await that can really suspend un-shielded - the close of each owned transport/socket has been invoked (gracefully or forcefully), directly, through a callee that is itself proven to close its argument, or through an ExitStack registration; that the closing flag is stored before the underlying close; that the event a second closer waits on is set on every exit of the first close and shared close-waiter futures are only awaited through asyncio.shield. Necessary structural condition of the property, decided for all cancellation points at once. close()/aclose() never takes a guard or lock that a receive method of the same class holds while waiting; AsyncTCPNetworkClient.aclose() cancels the pending connector before its first suspension point, and the connector stays registered while the race is awaited. Round 4: both async clients cancel the pending connector before dropping it and before their first suspension point; the asyncio stream adapter sets its write-buffer limit to zero, so close() frees the descriptor as soon as a send has completed (C20.zero).",
     "note": "Trusted: API tables (which calls cannot raise, which awaits are shielded), annotations for receiver types, cancel-scope semantics (a scope swallows only at its exit; cancelled_caught() correlates with that), task-group semantics. Not decided: promptness of a second close in time, OS-level release. Known findings F6a/F6b (AsyncTCP/UDP client aclose cancelled on the send-lock wait) are listed in known_findings.json.",
     "technique": "resource typestate (close-invoked) by abstract interpretation over an exception-aware structured CFG with interprocedural closer summaries, may-cancel summaries and a cancelled_caught() path refinement",
 }
@@ -170,6 +170,8 @@ def close_paths(eng) -> list[FunctionInfo]:
 
 
 def run(eng, run):
+    from sa.anchors import verify as _verify_anchor_names
+    _verify_anchor_names(eng, run)
     run.not_decided += NOT_DECIDED
     registry = CloserRegistry(eng)
     n = 0
@@ -260,31 +262,72 @@ def check_connector_cancel(eng, run):
     from sa.analyses.atomic import AtomicSection
     from rules import c19
     from sa.report import RuleAlias
-    ci = eng.db.cls("clients.async_tcp.AsyncTCPNetworkClient")
-    ac = ci.methods.get("aclose")
-    if ac is None:
-        raise AnalysisError("anchor vanished: AsyncTCPNetworkClient.aclose")
+    from sa.analyses.base import RuleAnalysis
     from sa.analyses.buffers import through_local
+    n = 0
+    for q in ("clients.async_tcp.AsyncTCPNetworkClient", "clients.async_udp.AsyncUDPNetworkClient"):
+        ci = eng.db.cls(q)
+        ac = ci.methods.get("aclose")
+        if ac is None:
+            raise AnalysisError(f"anchor vanished: {ci.name}.aclose")
+        n += 1
 
-    def cancels_connector(node):
-        if not (isinstance(node, ast.Call) and isinstance(node.func, ast.Attribute) and node.func.attr == "cancel"):
-            return False
-        d = dotted(node.func.value) or ""
-        root = d.split(".")[0]
-        v = through_local(ac, ast.Name(id=root, ctx=ast.Load())) if root != ac.self_name else None
-        return "connector" in d or (v is not None and "connector" in (dotted(v) or ""))
+        def cancels_connector(node, ac=ac):
+            if not (isinstance(node, ast.Call) and isinstance(node.func, ast.Attribute) and node.func.attr == "cancel"):
+                return False
+            d = dotted(node.func.value) or ""
+            root = d.split(".")[0]
+            v = through_local(ac, ast.Name(id=root, ctx=ast.Load())) if root != ac.self_name else None
+            return "connector" in d or (v is not None and "connector" in (dotted(v) or ""))
 
-    an = AtomicSection(eng, None, cancels_connector, armed_at_entry=True)
-    Interp(an, ac).run()
-    if not an.ends:
-        raise AnalysisError("anchor vanished: connector scope cancel in AsyncTCPNetworkClient.aclose")
-    ok = all(st == "armed" for _, st in an.ends)
-    if not ok:
-        late = next((node for node, st in an.ends if st != "armed"), None)
-        run.finding("C14.own", ac, _stmt_at(ac, late.lineno) if late is not None else ac.node, "aclose() can suspend (and be cancelled) before it cancels the pending connection attempt: "
-                    "a close cancelled at that point leaves the connect running - it completes, the client ends up connected and its socket is never closed")
-    run.ob("C14.own", f"{ac.short}:connector-cancelled-before-first-suspension", ok)
+        def drops_connector(node, ac=ac):
+            return isinstance(node, ast.Assign) and isinstance(node.value, ast.Constant) and node.value.value is None \
+                and any(isinstance(t, ast.Attribute) and "connector" in t.attr and dotted(t.value) == ac.self_name for t in node.targets)
+
+        class Drop(RuleAnalysis):
+            tokens = ("Exception", CANCELLED)
+
+            def __init__(self, e):
+                super().__init__(e)
+                self.viol = []
+
+            def initial(self, f):
+                return [False]
+
+            def may_raise(self, node, fact):
+                return []
+
+            def transfer(self, node, fact):
+                if cancels_connector(node):
+                    return [True]
+                if drops_connector(node) and not fact and node not in self.viol:
+                    self.viol.append(node)
+                return [fact]
+
+        dr = Drop(eng)
+        Interp(dr, ac).run()
+        for v in dr.viol[:1]:
+            run.finding("C14.own", ac, v, "aclose() forgets the pending connector without cancelling its scope: the connection attempt that is in flight completes after aclose() has returned, "
+                        "the client ends up connected and its socket is never closed")
+        run.ob("C14.own", f"{ci.name}.aclose:connector-never-dropped-uncancelled", not dr.viol)
+        an = AtomicSection(eng, None, cancels_connector, armed_at_entry=True)
+        Interp(an, ac).run()
+        if not an.ends:
+            if dr.viol:
+                continue
+            raise AnalysisError(f"anchor vanished: connector scope cancel in {ci.name}.aclose")
+        ok = all(st == "armed" for _, st in an.ends)
+        if not ok:
+            late = next((node for node, st in an.ends if st != "armed"), None)
+            run.finding("C14.own", ac, _stmt_at(ac, late.lineno) if late is not None else ac.node, "aclose() can suspend (and be cancelled) before it cancels the pending connection attempt: "
+                        "a close cancelled at that point leaves the connect running - it completes, the client ends up connected and its socket is never closed")
+        run.ob("C14.own", f"{ci.name}.aclose:connector-cancelled-before-first-suspension", ok)
+    run.floor("C14.own async clients with a pending connector", n, 2)
     c19.check_registered(eng, RuleAlias(run, "C14.own"))
+    # asyncio's transport.close() releases the socket only once its user-space write buffer is empty: with the buffer limit at 0 a
+    # completed send leaves nothing behind, so a close (even one that is then cancelled) frees the descriptor on the next iteration
+    from rules import c20
+    c20.check_zero(eng, RuleAlias(run, "C14.own"))
 
 
 def check_twice(eng, run, registry):
